@@ -86,6 +86,14 @@ CHECK_DEADLOCK FALSE
                 "--out", ts], timeout=600)
         traces.append((ts, f"stress readers={readers}"))
 
+    # richer programs (firewalls, projections, several inputs written by one session): sequential
+    # histories in the sweep regime, where no known finding is reachable; a session must take effect
+    # as a whole for every reader handed out afterwards
+    for i in range(2 if quick else 8):
+        tq = os.path.join(wd, f"seq_{i}.ndjson")
+        ec.eng_seq(bd, tq, seed=seed * 1000 + 700 + i, runs=80 if quick else 150, steps=40, cfg="mem", sweep=1)
+        traces.append((tq, "sequential sessions on random programs (sweep regime)"))
+
     states = transitions = events = 0
     by_kind = {}
     stats = {}
@@ -132,7 +140,8 @@ CHECK_DEADLOCK FALSE
                       len(verdict.violations),
                       assumptions=["tokio's RwLock is fair (a queued writer blocks new readers), as modelled",
                                    "one input and one dependent query stand for the whole program in the "
-                                   "schedule replay; richer programs are covered sequentially by C01",
+                                   "schedule replay and the stress; richer programs (firewalls, several inputs "
+                                   "per session) are exercised sequentially in the sweep regime",
                                    "event order in stress traces: Tracked/Begin/Set logged after the call "
                                    "returns, Drop and Commit logged before the call"])
     return rc
